@@ -233,6 +233,14 @@ func c15(ctx *Ctx) (*Outcome, error) {
 		off.Pair = &sem.Case{Root: root, Sig: off.Sig, Args: []string{"--min-sized-ints"}}
 		cases = append(cases, off)
 	}
+	// own properties next to an allOf, integer bounds on type limits
+	for i := 0; i < 6; i += 2 {
+		// (even indices: the allOf member is inline; a member given by reference to a definition with implied bounds is
+		// the shape of recorded finding minsized-regenerated-node, which has its pinned witness below)
+		off := propsNextToAllOfCase(i)
+		off.Pair = &sem.Case{Root: off.Root, Sig: off.Sig, Args: []string{"--min-sized-ints"}}
+		cases = append(cases, off)
+	}
 	// nullable named definitions (recorded finding named-nullable-scalar-no-rules shows on the flag-off side)
 	for i := 0; i < 4; i++ {
 		off := nullableDefCase(i)
